@@ -17,6 +17,8 @@ package vm
 //@ spec fun rvElem(v reflect.Value) reflect.Value
 //@ spec fun rvLen(v reflect.Value) int
 //@ spec fun rvIface(v reflect.Value) any
+// a length is never negative (what reflect.Value.Len can return)
+//@ axiom auto_rvLenNonNeg: forall v RV :: rvLen(v) >= 0
 
 // kind classes
 //@ spec fun isIntK(k int) bool = k == reflect.Int || k == reflect.Int8 || k == reflect.Int16 || k == reflect.Int32 || k == reflect.Int64
